@@ -128,7 +128,7 @@ def run_translators(names=None):
         if not fn.startswith("t_") or not fn.endswith(".py"):
             continue
         name = fn[:-3]
-        if names and name not in names:
+        if names is not None and name not in names:
             continue
         mod = importlib.import_module(name)
         try:
